@@ -590,6 +590,13 @@ func C18(c *core.Ctx) {
 						switch y := in2.(type) {
 						case *ssa.Panic:
 							ends = true
+						case *ssa.Store:
+							// the exit status handed back through a variable of the enclosing function (a named result): non-zero
+							if k, isC := y.Val.(*ssa.Const); isC && k.Value != nil && k.Value.Kind() == constant.Int && k.Value.ExactString() != "0" {
+								if _, captured := y.Addr.(*ssa.FreeVar); captured {
+									ends = true
+								}
+							}
 						case ssa.CallInstruction:
 							if cal := y.Common().StaticCallee(); cal != nil && cal.String() == "os.Exit" {
 								if k, isC := y.Common().Args[0].(*ssa.Const); isC && k.Value != nil && k.Value.ExactString() != "0" {
